@@ -39,6 +39,20 @@ func (fr *Frame) stdModel(name string, fn *ssa.Function, args []Val, pos token.P
 	c := fr.ctx
 	T := func(i int) *Term { return args[i].term() }
 	one := func(t *Term) (Val, bool) { return Val{T: t}, true }
+	if floatMode == 0 && strings.HasPrefix(name, "math.") {
+		switch name {
+		case "math.Float64bits", "math.Float64frombits":
+			return one(T(0))
+		}
+		var ts []*Term
+		for i := range args {
+			ts = append(ts, T(i))
+		}
+		if fn.Signature.Results().Len() == 1 {
+			return one(UFApp("ofp."+name, sortOf(fn.Signature.Results().At(0).Type()), ts...))
+		}
+		return Val{}, false
+	}
 	switch name {
 	case "math/bits.TrailingZeros64", "math/bits.TrailingZeros32", "math/bits.TrailingZeros":
 		return one(tzTerm(T(0)))
@@ -185,10 +199,7 @@ func (fr *Frame) sortHavoc(name string, fn *ssa.Function, args []Val, pos token.
 		fr.havocReachable(fn, args)
 		return Val{}, true
 	}
-	k := elemKey(et)
-	es := sortOf(et)
-	heap := fr.cur.get(k, SArray(SRef, SArray(SInt, es)))
-	fr.cur.set(k, Store(heap, DataField_(sl, 0), FreshVar("sorted", SArray(SInt, es))))
+	elemHavocInners(fr.cur, elemKey(et), sortOf(et), DataField_(sl, 0), "sorted")
 	return Val{}, true
 }
 
